@@ -22,8 +22,50 @@ Open Scope string_scope.
 Record cfg := MkCfg {
   cf_flip_dom : bool;        (* $func flips the polarity of the label for the domain (real: true) *)
   cf_guard_typeof : bool;    (* the typeof-like primops are stopped by a seal (real: true) *)
+  cf_dedup : bool;           (* an array contract that is the same occurrence as one already pending on
+                                the array is dropped, as RuntimeContract::push_dedup did before 88c71d0 for
+                                contracts with polymorphic parts (real: false) *)
 }.
-Definition cfg_real : cfg := MkCfg true true.
+Definition cfg_real : cfg := MkCfg true true false.
+
+(* equality of generated contracts (what contract_eq decides; labels are not part of a contract) *)
+Fixpoint ctr_eqb (a b : ctr) {struct a} : bool :=
+  match a, b with
+  | CDyn, CDyn | CNum, CNum | CBool, CBool | CStr, CStr | CUnbound, CUnbound => true
+  | CFun d1 c1, CFun d2 c2 => ctr_eqb d1 d2 && ctr_eqb c1 c2
+  | CArr c1, CArr c2 => ctr_eqb c1 c2
+  | CForall k1 c1, CForall k2 c2 => Nat.eqb k1 k2 && ctr_eqb c1 c2
+  | CVar k1, CVar k2 => Nat.eqb k1 k2
+  | CRec f1 t1, CRec f2 t2 =>
+      (fix go (f1 f2 : list (string * ctr)) : bool :=
+         match f1, f2 with
+         | [], [] => true
+         | (x1, c1) :: f1', (x2, c2) :: f2' => String.eqb x1 x2 && ctr_eqb c1 c2 && go f1' f2'
+         | _, _ => false
+         end) f1 f2
+      && match t1, t2 with
+         | CTEmpty, CTEmpty | CTDyn, CTDyn | CTUnbound, CTUnbound => true
+         | CTVar k1 _, CTVar k2 _ => Nat.eqb k1 k2
+         | _, _ => false
+         end
+  | _, _ => false
+  end.
+
+(* is this occurrence of the element contract c among the contracts already pending on this element?  The
+   pending contracts of an array are the chain of [wrap_elem] wrappers around each element.  push_dedup
+   recognised a re-application of the same occurrence (the same contract closure); the domain and the
+   codomain occurrence of `Array a` are different closures.  The model has no closure identity: an
+   occurrence is identified by the contract and the polarity of its label. *)
+Fixpoint pending (depth : nat) (c : ctr) (l : lbl) (t : thunk) : bool :=
+  match depth with
+  | O => false
+  | S d =>
+      match t with
+      | Th [(_, t')] (Chk c' l' (Var _)) =>
+          (ctr_eqb c c' && Bool.eqb (lpol l) (lpol l')) || pending d c l t'
+      | _ => false
+      end
+  end.
 
 (* ------------------------------------------------------------------ outcome plumbing *)
 
@@ -275,7 +317,9 @@ Section WithEv.
     | CArr c' =>
         bind (guard (ev th)) (fun v =>
           match v with
-          | VArr es => Ok (VArr (map (wrap_elem c' l) es))
+          | VArr es =>
+              if cf_dedup cf && forallb (pending 8 c' l) es then Ok v
+              else Ok (VArr (map (wrap_elem c' l) es))
           | _ => blame l
           end)
     | CRec fs ct => bind (guard (ev th)) (chk_record cf fs ct l)
